@@ -2,6 +2,13 @@
 PENDING_REASON = "static rules designed in DESIGN.md §3 but the check is not registered yet (under construction)"
 
 CLAIMS = {
+    "C14": {
+        "technique": "static analysis: taint of untrusted input values into may-raise sinks with total coercions / isinstance narrowing / try as sanitisers, alias (freshness) classification of every mutated dictionary with helper summaries, handler-shape check of the API variants, set-in-message / set-iteration detection, NaN-closure of float coercion, validator<->engine table agreement (hard subscripts, typed uses of config values)",
+        "text": "Decides on configs/validate.py: every ordering comparison, arithmetic, len/int/float/sorted, iteration, string method or membership test applied to a value read from the input is behind a total coercion, a validator-stored coerced key (on all paths), an isinstance narrowing or try/except, and keys are stringified before the edit-distance helper; "
+                "every store / mutating call targets a dictionary built by _ensure_dict/_ensure_subdict/_deep_merge/dict()/literal and those helpers return fresh objects on all paths; all API variants and the script call the one normaliser and catch only ConfigError, deriving messages from str(e); no message interpolates or iterates a set without sorted(); "
+                "_coerce_float never returns NaN; every stage-config key the engine subscripts without default is always present, and every allowed t1/t2 key the stages use as number / mapping / sequence without a total accessor is coerced or type-checked by the validator.",
+        "note": "Not decided: that the engine can execute turns under every accepted configuration (needs running turns); value ranges actually honoured at run time; YAML loader behaviour. CONTRACT covers the stage modules' direct reads of cfg_t1..cfg_t4 (orchestrator / GEL reads go through .get with defaults).",
+    },
     "C05": {
         "technique": "static analysis: access-path dependency containment In(value) <= In(key) over the memoised regions (backward slices with control dependence, callee dependency summaries), free-variable and per-config-key containment for the T1 closure, sibling key agreement for the turn-level cache, write/bump pairing and content-derivation of version components, instance-discriminator check for process-global caches, alias/mutation check of cached objects",
         "text": "Decides: every configuration/context/state access path the cached T2 result (retrieved + residual deltas) depends on is in the dependency set of the stage key, version-covered (index version+uid, encoder type) or on a frozen exemption list; the turn-level key dominates the stage key and depends on agent, clock, state version, index, T1's result and the input; "
